@@ -7,6 +7,17 @@ NOTE = ("Trusted: Coq 8.16.1 kernel and vm_compute (no native_compute); no axiom
         "context'); the go2v translator; the Go harness/oracle; Go toolchain and third-party libraries. See DESIGN.md section 7.")
 SOURCE_COMMITS = []  # hook commits in /repo (none so far: the harness uses the public API only)
 CLAIMED = {
+ "C02": dict(ref="5 C02", technique="Rocq/Coq proof (canonical-target invariant over the extracted chain) + in-Coq correspondence",
+   text="C02_sso_reply_target / _target_registered / _persisted_pair / _target_function: for every chain and every request, any URL-delivered reply and the persisted pair are "
+        "the (Location, Binding) of one ACS entry registered for the SP storage returned for the Issuer; independent Go oracle on form action / Location / Destination / CreateAuthRequest arguments. "
+        "Callback and logout targets are covered by the C01/C03/C13 models."),
+ "C05": dict(ref="5 C05", technique="Rocq/Coq proof over the extracted chain with verification oracles + in-Coq correspondence against a simulated signing SP",
+   text="C05_signatures / _persisted / _required_forms: an accepted request had the verification oracle answer positively on exactly (SAMLRequest, RelayState, SigAlg, Signature) resp. the posted document, "
+        "and those values are what is persisted; required is recognised for true and 1. Two refutation witnesses (enveloped signature over Redirect, detached signature in a POST form) are proved and "
+        "listed as known findings F-05b/F-05c. Cryptography and goxmldsig are oracles."),
+ "C06": dict(ref="5 C06", technique="Rocq/Coq proof over the extracted chain + one correspondence stream per violated condition",
+   text="C06_accept_implies holds for every chain containing the six validation steps and all inputs; C06_window characterises the validity window incl. the boundary now = instant that "
+        "tests cannot hit. Decoding is an oracle (codec: C18). The Go oracle re-evaluates the conditions on the submitted bytes with a generic strict XML walk."),
  "C08": dict(ref="5 C08", technique="Rocq/Coq proof over the checker chain extracted by go2v (facts mode) + in-Coq model/implementation correspondence",
    text="C08_one_outcome / C08_no_panic hold for every chain satisfying decidable wf8 / wf_order and for all requests, metadata and storage answers; "
         "wf8 sso_steps = true is re-proved by vm_compute on the chain go2v extracts from sso.go on every run. The model is run inside Coq on the abstract inputs of "
